@@ -342,3 +342,53 @@ Proof.
 Qed.
 
 End RelClasses.
+
+(* ================= the Standard's side alone, as the parser is invoked ================= *)
+Section SpecRelParse.
+Variable shp : bool -> list N -> option spec_host.
+
+Theorem spec_rel_abs input sb t : has_opaque_path sb = false -> is_special_scheme (su_scheme sb) = false ->
+  spec_clean input = 47 :: t -> starts_with_cp 47 t = false ->
+  spec_basic_url_parse shp input (Some sb) = BDone (rel_path_result sb [] t).
+Proof.
+  intros Hop Hnsp Ecl H47. apply spec_parse_of_runs. exact (runs_rel_abs shp (spec_clean input) sb Hop Hnsp t Ecl H47).
+Qed.
+
+Theorem spec_rel_path input sb c t : has_opaque_path sb = false -> is_special_scheme (su_scheme sb) = false ->
+  spec_clean input = c :: t -> spec_scheme (c :: t) = None ->
+  (c =? 47) = false -> (c =? 63) = false -> (c =? 35) = false ->
+  spec_basic_url_parse shp input (Some sb) = BDone (rel_path_result sb (removelast (path_segments sb)) (c :: t)).
+Proof.
+  intros Hop Hnsp Ecl Hs E47 E63 E35. apply spec_parse_of_runs. rewrite Ecl.
+  exact (runs_rel_path shp (c :: t) sb Hop Hnsp c t eq_refl Hs E47 E63 E35).
+Qed.
+
+End SpecRelParse.
+
+(* containment on the Standard's side: the path arms keep scheme, credentials, host and port of the base *)
+Definition spec_same_front (sb su : spec_url) : Prop :=
+  su_scheme su = su_scheme sb /\ su_username su = su_username sb /\ su_password su = su_password sb
+  /\ su_host su = su_host sb /\ su_port su = su_port sb.
+
+Lemma rel_path_result_front sb P0 t : spec_same_front sb (rel_path_result sb P0 t).
+Proof.
+  unfold rel_path_result, tail_url, spec_same_front. destruct (snd (spath t P0 [])) as [|c r]; [repeat split|].
+  destruct (c =? 63); [|repeat split; reflexivity].
+  unfold query_final, frag_opt. destruct (C01_EqRun.after_hash r); repeat split; reflexivity.
+Qed.
+
+(* ================= the three classes together ================= *)
+Definition in_class_relative (sb : spec_url) (input : list N) : bool :=
+  in_class_rel_abs sb input || in_class_rel_path sb input || in_class_rel_authority sb input.
+
+Theorem class_relative dbg hp hpo hd ovr shp shs input b sb : usv_list input -> related dbg shs b sb ->
+  spec_base_ok sb = true -> in_class_relative sb input = true ->
+  (in_class_rel_authority sb input = true -> host_agree hpo hd shp shs (rel_host_text input)) ->
+  agree_rel_strict dbg shs (parse_url dbg hp hpo hd ovr (Some b) input) (spec_basic_url_parse shp input (Some sb)).
+Proof.
+  intros Hu R Hb Hc HH. pose proof Hb as Hb0. apply andb_true_iff in Hb0. destruct Hb0 as [Hcan _].
+  unfold in_class_relative in Hc. apply orb_true_iff in Hc. destruct Hc as [Hc|Hc]; [apply orb_true_iff in Hc; destruct Hc as [Hc|Hc]|].
+  - destruct (class_rel_abs dbg hp hpo hd ovr shp shs input b sb Hu R Hcan Hc) as (su & -> & _ & A). exact A.
+  - destruct (class_rel_path dbg hp hpo hd ovr shp shs input b sb Hu R Hb Hc) as (su & -> & _ & A). exact A.
+  - exact (class_rel_authority dbg hp hpo hd ovr shp shs input b sb Hu R Hcan Hc (HH Hc)).
+Qed.
